@@ -117,6 +117,8 @@ def gen_history(rng, hid, maxlen=6):
         n = rng.choice([1, 2, 3, 5, 6])
         o = {"op": kind, "frame": gen_frame(rng, pcols, n, nid, sub_pool(rng, kpool), sub_pool(rng, jpool)), "offsets": offsets(rng, n)}
         nid += n
+        if rng.random() < 0.2:
+            o["y_int"] = True      # the new frame's y column is int64: the part files must still carry the summary's schema (y: double)
         if kind == "writergs":
             o["sort_key"] = rng.choice(SORT_KEYS)
             o["sort_pnames"] = rng.random() < 0.5
@@ -236,11 +238,12 @@ def model_ops(h, resolved):
 # ---------------------------------------------------------------------------------------------
 # the real code (worker process)
 # ---------------------------------------------------------------------------------------------
-def to_df(frame, pcols, ptypes=None):
+def to_df(frame, pcols, ptypes=None, y_int=False):
     import numpy as np
     import pandas as pd
     pt = ptypes or DEFAULT_PTYPES
-    d = {"x": np.array([r["x"] for r in frame], dtype="int64"), "y": np.array([r["y"] for r in frame], dtype="float64")}
+    d = {"x": np.array([r["x"] for r in frame], dtype="int64"),
+         "y": np.array([int(r["y"] * 2) for r in frame], dtype="int64") if y_int else np.array([r["y"] for r in frame], dtype="float64")}
     for c in pcols:
         vals = [r[c] for r in frame]
         kind = pt[c]
@@ -330,11 +333,11 @@ def run_history(arg):
             sel = None
             try:
                 if o["op"] == "write":
-                    write(root, to_df(o["frame"], pcols, h.get("ptypes")), file_scheme="hive", partition_on=list(pcols), row_group_offsets=list(o["offsets"]), **okw)
+                    write(root, to_df(o["frame"], pcols, h.get("ptypes"), o.get("y_int", False)), file_scheme="hive", partition_on=list(pcols), row_group_offsets=list(o["offsets"]), **okw)
                 elif o["op"] == "append":
-                    write(root, to_df(o["frame"], pcols, h.get("ptypes")), file_scheme="hive", partition_on=list(pcols), row_group_offsets=list(o["offsets"]), append=True, **okw)
+                    write(root, to_df(o["frame"], pcols, h.get("ptypes"), o.get("y_int", False)), file_scheme="hive", partition_on=list(pcols), row_group_offsets=list(o["offsets"]), append=True, **okw)
                 elif o["op"] == "overwrite":
-                    write(root, to_df(o["frame"], pcols, h.get("ptypes")), file_scheme="hive", partition_on=list(pcols), row_group_offsets=list(o["offsets"]),
+                    write(root, to_df(o["frame"], pcols, h.get("ptypes"), o.get("y_int", False)), file_scheme="hive", partition_on=list(pcols), row_group_offsets=list(o["offsets"]),
                           append="overwrite", **okw)
                 elif o["op"] == "remove":
                     pf = ParquetFile(root, **okw)
@@ -343,7 +346,7 @@ def run_history(arg):
                     pf.remove_row_groups([pf.row_groups[i] for i in sel], sort_pnames=o["sort_pnames"], **okw)
                 elif o["op"] == "writergs":
                     pf = ParquetFile(root, **okw)
-                    pf.write_row_groups(to_df(o["frame"], pcols, h.get("ptypes")), list(o["offsets"]), sort_key=sort_key_fn(o["sort_key"]),
+                    pf.write_row_groups(to_df(o["frame"], pcols, h.get("ptypes"), o.get("y_int", False)), list(o["offsets"]), sort_key=sort_key_fn(o["sort_key"]),
                                         sort_pnames=o["sort_pnames"], **okw)
             except BaseException as e:           # noqa
                 raised = "%s: %s" % (type(e).__name__, str(e)[:160].replace("\n", " "))
